@@ -15,6 +15,7 @@ lane() {
   rsync -a --exclude target /repo/ $L/repo/
   rsync -a --exclude replays --exclude seeded --exclude mutants --exclude .git /verif/ $L/verif/
   sed -i "s#path = \"/repo\"#path = \"$L/repo\"#" $L/verif/harness/Cargo.toml
+  sed -i "s#path = \"/repo\"#path = \"$L/repo\"#" $L/verif/harness32/Cargo.toml
   n=0
   for it in "${items[@]}"; do
     n=$((n+1)); [ $((n % lanes)) -eq $i ] || continue
